@@ -86,6 +86,7 @@ structure S where
   phase : Phase
   kill : Option Kill := none        -- `self._kill`
   mustCancel : Bool := false        -- cancellation requested while running, not yet delivered
+  cancelReq : Bool := false         -- `Task.cancel()` was called on the parked task; it has not run yet
   executing : Bool := false         -- `self._executing`
   blocked : Bool := false           -- transport not accepting (harness / client)
   lost : Bool := false              -- transport lost: every drain raises, reads raise
@@ -105,7 +106,8 @@ inductive Ev
   | resume                          -- the awaited thing completed (future resolved / next loop tick)
   | block
   | unblock
-  | kill (k : Kill)                 -- from another task / the Control API
+  | kill (k : Kill)                 -- `Connection.kill(k)` called from another task / the Control API
+  | deliver                         -- the cancelled task runs: `CancelledError` is raised at the await it is parked at
   | eof                             -- client closed its side
   | lose                            -- transport lost (socket error)
 deriving Repr
@@ -247,29 +249,34 @@ def step (s : S) : Ev → S
     | .idle => runHandler { s with executing := true } script
     | _ => s                                   -- bytes stay in the reader's buffer (not modelled: no pipelining)
   | .resume =>
+    -- once `Task.cancel()` was called the awaited future is cancelled: resolving it later wakes nobody
+    if s.cancelReq then s else
     match s.phase with
     | .parked lvl .future rest exc => resumeAt s lvl rest exc
     | _ => s
   | .block => { s with blocked := true }
   | .unblock =>
+    if s.cancelReq then { s with blocked := false } else
     match s.phase with
     | .parked lvl .drain rest exc => resumeAt { s with blocked := false } lvl rest exc
     | _ => { s with blocked := false }
   | .kill k =>
     match s.phase with
-    | .closed => s
-    | .greeting =>
+    | .closed => s                             -- `_task is None`
+    | _ =>
       match k with
-      | .query => s
-      | .conn => throwConn { s with kill := some .conn } .cancelled
-    | .idle =>
-      match k with
-      | .query => s                            -- not executing: ignored
-      | .conn => throwStart { s with kill := some .conn } .cancelled
-    | .parked lvl _ _ _ =>
-      match k with
-      | .query => if s.executing && s.kill.isNone then throwAt { s with kill := some .query } lvl .cancelled else s
-      | .conn => throwAt { s with kill := some .conn } lvl .cancelled
+      | .query =>
+        -- only a command that is being executed can be killed, and only once
+        if s.executing && s.kill.isNone then { s with kill := some .query, cancelReq := true } else s
+      | .conn => { s with kill := some .conn, cancelReq := true }
+  | .deliver =>
+    if s.cancelReq then
+      match s.phase with
+      | .closed => s
+      | .greeting => throwConn { s with cancelReq := false } .cancelled
+      | .idle => throwStart { s with cancelReq := false } .cancelled
+      | .parked lvl _ _ _ => throwAt { s with cancelReq := false } lvl .cancelled
+    else s
   | .eof =>
     match s.phase with
     | .greeting => throwConn s .generic        -- ConnectionClosed inside connection_phase
